@@ -153,8 +153,12 @@ class HTTP(BaseComponent):
         self.fire(write(sock, b'%s%s' % (bytes(res), bytes(headers))))
 
         if req.method == 'HEAD':
-            return
-        if res.stream and res.body:
+            # no body, but the connection is managed like after any other response
+            if res.close:
+                self.fire(close(sock))
+            self._clients.pop(sock, None)
+            res.done = True
+        elif res.stream and res.body:
             try:
                 data = next(res.body)
             except StopIteration:
